@@ -522,6 +522,8 @@ class CFG:
         return out
 
     def fmt_path(self, path):
+        if not path:
+            return "<no path>"
         rel = self.func.module.relpath
         return " -> ".join("%s:%s[%s]" % (rel, n.lineno, n.text()[:50]) for n in path
                            if n.kind not in ("join",))
